@@ -19,9 +19,14 @@ import (
 	"github.com/goreleaser/nfpm/v2"
 )
 
-func parseDoc(doc map[string]any, env map[string]string) (nfpm.Config, string, error) {
-	y := docYAML(doc)
-	cfg, err := nfpm.ParseWithEnvMapping(strings.NewReader(y), func(k string) string { return env[k] })
+func parseDoc(doc map[string]any, env map[string]string) (cfg nfpm.Config, y string, err error) {
+	y = docYAML(doc)
+	defer func() { // a parser that panics has neither accepted nor rejected the document: reported as an error of its own kind
+		if r := recover(); r != nil {
+			err = fmt.Errorf("PANIC in the parser: %v", r)
+		}
+	}()
+	cfg, err = nfpm.ParseWithEnvMapping(strings.NewReader(y), func(k string) string { return env[k] })
 	return cfg, y, err
 }
 
@@ -153,7 +158,7 @@ func famGet(tr *Trace, id *int) int {
 			g := allFormats[(fi+1)%5]
 			h := allFormats[(fi+2)%5]
 			for _, baseSet := range []bool{false, true} {
-				for _, ovState := range []string{"noblock", "noleaf", "empty", "set"} {
+				for _, ovState := range []string{"noblock", "noleaf", "empty", "set", "nullblock", "emptyblock"} {
 					doc := minimalDoc()
 					var base any = emptyDoc(k.Kind)
 					if baseSet {
@@ -175,6 +180,10 @@ func famGet(tr *Trace, id *int) int {
 					case "set":
 						ovf = sampleValue(k, 3)
 						setPath(doc, append([]string{"overrides", f}, k.Segs...), ovf, "")
+					case "nullblock": // `f:` with nothing below it
+						doc["overrides"].(map[string]any)[f] = rawYAML("")
+					case "emptyblock": // `f: {}`
+						doc["overrides"].(map[string]any)[f] = map[string]any{}
 					}
 					*id++
 					n++
